@@ -28,14 +28,19 @@ MORE3 = {
         tech="contract-based deductive verification (Verus): abstract view + frame postconditions; representation never appears in a postcondition",
         ref="4/C03, 3"),
     "C06": dict(
-        text="Partial proof (Verus) for div, divmod and mod: the num-bigint functions and their malachite twins (op_div / op_div_malachite, "
-             "op_divmod / op_divmod_malachite, op_mod / op_mod_malachite, int_atom / malachite_int_atom, number / malachite_number, "
-             "new_number / new_malachite_number) are verified against the SAME contracts: same argument acceptance, same error kinds, the "
-             "result is the canonical encoding of the floored quotient / remainder of the operands' integer values, and the cost is the "
-             "documented formula plus 10 per result byte; the public operators' contracts do not mention the MALACHITE flag. modpow is NOT "
-             "under contract.",
-        note=TB + "Stated modulo the library specifications of both back ends (div_floor, mod_floor, div_mod_floor, sign, "
-             "from/to_signed_bytes_be), which are listed as assumptions: the proof shows the repository's glue code is backend-independent.",
+        text="Proof (Verus) for div, divmod, mod and modpow: the num-bigint functions and their malachite twins (op_div / op_div_malachite, "
+             "op_divmod / op_divmod_malachite, op_mod / op_mod_malachite, op_modpow / op_modpow_malachite, int_atom / malachite_int_atom, "
+             "number / malachite_number, new_number / new_malachite_number) are verified against the SAME contracts, and the contracts are "
+             "COMPLETE in the outcome: which argument lists fail with InvalidOpArg, when the call fails with CostExceeded, when with "
+             "DivisionByZero (and, for modpow, the order negative exponent before zero modulus), that every other failure is an allocator limit, "
+             "that the result is the canonical encoding of the floored quotient / remainder (modpow: of the library's modpow value) of the "
+             "operands' integer values, and that the cost is the documented formula plus 10 per result byte; the contracts do not mention the "
+             "MALACHITE flag, so two calls that differ only in that flag have the same outcome.",
+        note=TB + "Stated modulo the library specifications of both back ends (div_floor, mod_floor, div_mod_floor, modpow, sign, "
+             "from/to_signed_bytes_be), which are listed as assumptions: the proof shows the repository's glue code is backend-independent; "
+             "that the two libraries compute the same modpow value is assumed. Pre-hard-fork modpow: proved for allocators whose heap is below "
+             "512 MiB (observation O4: the old-model cost arithmetic is unchecked). A concrete differential search over both back ends "
+             "(vreplay search C06) runs when an obligation is undecided and in the thorough tier.",
         tech="contract-based deductive verification (Verus): two implementations against one contract over abstract integer values",
         ref="4/C06"),
     "C20": dict(
@@ -44,12 +49,15 @@ MORE3 = {
              "(every index, unwrap, cast, checked arithmetic and allocation is a discharged obligation), a successful decode has consumed "
              "exactly body_end(...) bytes and the length probe succeeds exactly when body_end is defined and returns 6 + body_end, so the probe "
              "equals the bytes consumed whenever decoding succeeds; a lemma shows the classic grammar (which node_from_bytes and "
-             "tree_hash_from_stream are proved to implement) rejects every blob starting with the magic prefix 0xfd 0xff. Varints (C21) are "
-             "proved by Kani and enter as an assumed contract with exactly that statement. The round-trip clause is NOT decided: "
+             "tree_hash_from_stream are proved to implement) rejects every blob starting with the magic prefix 0xfd 0xff. Varints are "
+             "proved by Kani (harnesses varint_roundtrip and varint_decode_total run as part of this check: strict mode accepts every varint the "
+             "serializer writes) and enter the Verus proof as an assumed contract with exactly that statement. The round-trip clause for whole "
+             "trees is NOT decided by proof (a concrete search over trees, levels and byte strings, vreplay search C20, runs in the thorough tier): "
              "serialize_2026 interns atoms and pairs through HashMaps, outside Verus's fragment; the back-reference decoder's rejection of the "
              "prefix is not under contract.",
         note=TB + "Six small std calls (usize::try_from, Vec::resize, read_exact into a Vec, Vec::get().ok_or, checked_neg/checked_sub, "
-             "slice::starts_with) are routed through stubs whose contracts restate the std documentation (listed).",
+             "slice::starts_with) are routed through stubs whose contracts restate the std documentation (listed). Heap allocation is "
+             "assumed to succeed: the body decoder pre-allocates the declared atom length up to max_atom_len (observation O5).",
         tech="contract-based deductive verification (Verus): decoder and length probe against one recursive length specification; Kani for the varint codec",
         ref="4/C20, 11.9"),
 }
